@@ -122,7 +122,8 @@ Lemma spec_run_eq cfg s va priv w wa : cfg_have_virt_ext cfg = 0 -> 0 <= w <= 1 
   translate_spec (cfg_have_security_ext cfg) s va (truthy priv) (truthy w) (truthy wa)
   = xlate_result cfg s w (vmsa_translate (truthy (cfg_have_security_ext cfg)) s (leaf_device s) va (truthy priv) (truthy w) (truthy wa)).
 Proof.
-  intros Hvirt Hw. unfold translate_spec, xlate_result.
+  intros Hvirt Hw. unfold translate_spec, translate_spec_gen, xlate_result.
+  change (fun l : sd_leaf => is_device (tex_remap (sreg s i_prrr) (sreg s i_nmrr) (lf_texcb l) (lf_s l))) with (leaf_device s).
   assert (Et : negb (cfg_have_security_ext cfg =? 0) = truthy (cfg_have_security_ext cfg)) by reflexivity. rewrite Et.
   assert (Es : secure_of (cfg_have_security_ext cfg) s = IsSecure (sysctx_of cfg s) (cpsr_of s)) by reflexivity. rewrite Es.
   assert (Ew : (if truthy w then 1 else 0) = w) by (assert (w = 0 \/ w = 1) as [->| ->] by lia; reflexivity). rewrite Ew.
